@@ -86,14 +86,14 @@ def modelRa (v : View) (k : Kind) (i nlo nhi m : Int) : String :=
 
 /-- x / y iterator laws: `step` is the iterator's memory-unit step; `raw` = the iterator is not a
     step iterator (pointer / planar / bit iterator: ++ and the comparisons are the base type's own) -/
-def modelSt (k : Kind) (xs start step : Int) (isY : Bool) (i nlo nhi m : Int) : String :=
+def modelSt (k : Kind) (start step : Int) (isY : Bool) (i nlo nhi m : Int) : String :=
   let adv (p n : Int) : Int := if isY then yAdv k step p n else xAdv k step p n
   let inc (p : Int) : Int := if isY then yAdv k step p 1 else xInc k step p
   let dec (p : Int) : Int := if isY then yAdv k step p (-1) else xDec k step p
   let it0 := adv start i
   let rows := (range' nlo nhi).map fun n =>
     let J := adv it0 n
-    [J, stepSub k step J it0] ++ itCmp k isY xs step it0 J ++ [b2i (it0 == J), adv J m, adv it0 (n + m)]
+    [J, stepSub k step J it0] ++ itCmp k isY step it0 J ++ [b2i (it0 == J), adv J m, adv it0 (n + m)]
   join ([it0, inc it0, dec (inc it0)] :: rows)
 
 def modelMv (v : View) (k : Kind) (x0 y0 : Int) (ms : List Move) : String :=
@@ -120,8 +120,8 @@ def model (line : String) : String :=
   | "st" :: rest =>
     match parseView (rest.take 6), ints (rest.drop 6) with
     | some (v, k, _), some [axis, c, i, nlo, nhi, m] =>
-      if axis = 0 then modelSt k v.xs ((View.loc v).move k 0 c).pos v.xs false i nlo nhi m
-      else modelSt k v.xs ((View.loc v).move k c 0).pos v.ys true i nlo nhi m
+      if axis = 0 then modelSt k ((View.loc v).move k 0 c).pos v.xs false i nlo nhi m
+      else modelSt k ((View.loc v).move k c 0).pos v.ys true i nlo nhi m
     | _, _ => "bad-op"
   | "mv" :: rest =>
     match parseView (rest.take 6), ints ((rest.drop 6).take 2), parseMoves (rest.drop 8) with
